@@ -13,7 +13,11 @@
 (* Object graphs are heaps:  Seq of [lab, dig, kids], a kid (edge) is      *)
 (*   [c, k, r, d, dk, soft]   c  edge class  "t" tuple item / constructor  *)
 (*                               argument, "i" list item, "v" dict value,  *)
-(*                               "a" attribute                             *)
+(*                               "a" entry of the instance dictionary,     *)
+(*                               "s" value of a slot (where an attribute   *)
+(*                               lives is observable: obj.name through the *)
+(*                               slot descriptor vs vars(obj)[name], and   *)
+(*                               pickle rebuilds each in its place)        *)
 (*                            k  attribute name / key digest ("" for       *)
 (*                               positional edges; position = index)       *)
 (*                            r  target node (0: the edge ends in a leaf)  *)
@@ -24,7 +28,8 @@
 (*                               dict value or an entry of a plain         *)
 (*                               instance dictionary                       *)
 (* Kids are in a canonical order (positional edges in order, dict values   *)
-(* by key, attributes by name), so a heap is a deterministic rooted graph. *)
+(* by key, slot values by name, dictionary entries by name), so a heap is  *)
+(* a deterministic rooted graph.                                           *)
 (* Identity = node index; nothing else of a node is observable.            *)
 (***************************************************************************)
 EXTENDS Naturals, Sequences, FiniteSets, TLC
